@@ -156,7 +156,7 @@ def rec_metric(ref, pred, metric: str, sel: bool, ri=None, pis=None, dtype=np.ui
     rec = {"shape": shape_of(ref), "ref": flat(ref.astype(np.int64), rmap), "pred": flat(pred.astype(np.int64), rmap),
            "metric": metric, "sel": bool(sel), "ri": rmap.get(int(ri), 0) if sel else 0,
            "pis": [rmap[int(p)] for p in pis] if sel else [0], "out": "ok", "val": TOK("skip"), "zero": False,
-           "skr": [], "skp": [], "meta": dict(meta or {})}
+           "skr": [], "skp": [], "big": bool(max(ref.shape) > 46340), "meta": dict(meta or {})}
     rec["meta"].update({"dtype": str(np.dtype(dtype)), "raw_ref": ref.ravel().tolist(), "raw_pred": pred.ravel().tolist(),
                         "raw_ri": ri, "raw_pis": list(pis) if sel else None})
     try:
@@ -308,6 +308,8 @@ def check_C07(tier: str, v: Verdict):
         recs = gen_metric_records(rng, ["ASSD"], 15000, [((2, 3), ["ASSD"]), ((6,), ["ASSD"]), ((2, 2, 2), ["ASSD"])])
     # special geometries: full-extent slabs, single voxels, one-voxel-thick plates, tight arrays, singleton axes
     recs += special_assd_records(rng, 300 if tier == "quick" else 3000)
+    # long-range: an axis of more than 46340 voxels, squared distances beyond 2^31
+    recs += long_range_assd_records(rng, 6 if tier == "quick" else 40)
     # embedded twins: the same pair padded / tightly cropped must give the same value
     twins = []
     for r in [x for x in recs if x["out"] == "ok" and not x["sel"]][:: 3]:
@@ -377,6 +379,41 @@ def special_assd_records(rng, n):
     return recs
 
 
+def long_range_assd_records(rng, n):
+    """Few-voxel objects at opposite ends of a 1-D line / thin 2-D or 3-D strip longer than 46340
+    voxels (squared distances do not fit 32 bits), optionally with a second piece nearby."""
+    recs = []
+    for i in range(n):
+        length = rng.choice([46342, 50000, 65536, 65537, 70000, 92683, 100000])
+        kind = rng.choice(["line", "line", "strip2", "strip2t", "strip3"])
+        shape = {"line": (length,), "strip2": (2, length), "strip2t": (length, 2), "strip3": (1, length, 2)}[kind]
+        ax = shape.index(length)
+        a = np.zeros(shape, bool)
+        b = np.zeros(shape, bool)
+
+        def put(arr, lo, hi):
+            sl = [slice(None)] * len(shape)
+            sl[ax] = slice(lo, hi)
+            blk = arr[tuple(sl)]
+            blk[...] = True
+            if blk.size > 2 and rng.random() < 0.5:
+                flat_idx = rng.randrange(blk.size)
+                blk.reshape(-1)[flat_idx] = False if blk.sum() > 1 else True
+            arr[tuple(sl)] = blk
+        a0 = rng.randint(0, 40)
+        put(a, a0, a0 + rng.randint(1, 3))
+        far = rng.choice([length - 1, length - 1, 65536 + a0 if 65536 + a0 < length else length - 1, rng.randint(46341 + a0 + 3, length - 1) if 46341 + a0 + 3 < length else length - 1])
+        put(b, far - rng.randint(0, 2), far + 1)
+        if rng.random() < 0.4:
+            put(b, a0 + 5, a0 + 6)          # a second piece of b near a: near and far distances in one bag
+        if not a.any() or not b.any():
+            continue
+        if rng.random() < 0.5:
+            a, b = b, a
+        recs.append(rec_metric(a, b, "ASSD", False, dtype=rng.choice([np.bool_, np.uint8]), meta={"gen": "long-range-" + kind}))
+    return recs
+
+
 _BAG = re.compile(r'<<"BAGS", (\d+), (.*)>>\s*$', re.S)
 
 
@@ -414,7 +451,9 @@ def assd_validate(v: Verdict, recs: list[dict], batch: int = 3000):
                         obj = json.loads(json.loads(line))
                     except Exception:  # noqa: BLE001
                         continue
-                    bags[int(obj["bags"])] = ({int(d): int(c) for d, c in obj["a"]}, {int(d): int(c) for d, c in obj["b"]})
+                    # entries <<d, count>> or, long-range, <<q, r, count>> with d = q * 2^20 + r
+                    bags[int(obj["bags"])] = tuple({(int(e[0]) if len(e) == 2 else int(e[0]) * 1048576 + int(e[1])): int(e[-1]) for e in obj[k]}
+                                                   for k in ("a", "b"))
             for tid, (ba, bb) in bags.items():
                 rec = chunk[tid - 1]
                 if rec["out"] != "ok" or tid in bad:
